@@ -189,9 +189,6 @@ Proof.
     ((0 <=? q) && (q <=? 2)), (spec_payload_type_ok k), (n <=? 268435455); reflexivity.
 Qed.
 
-Definition topic_bad (v : version) (t : list Z) : Prop :=
-  In 43 t \/ In 35 t \/ (v <> V5 /\ t = []) \/ 65535 < blen t.
-
 Lemma spec_topic_ok_false v t : spec_topic_ok v t = false <-> topic_bad v t.
 Proof.
   unfold spec_topic_ok, topic_bad. rewrite !mem_has_byte.
